@@ -45,6 +45,8 @@ type DialScenario struct {
 	// Redial: a second DialWithContext on the SAME Client (after Close) against this server; only Caps,
 	// Script and dynamic of it are used, the client configuration stays
 	Redial *DialScenario `json:"redial,omitempty"`
+	// Variant != 0: setters instead of options, chosen from this seed
+	Variant uint64 `json:"variant,omitempty"`
 }
 
 type DialRun struct {
@@ -173,23 +175,61 @@ func RunDial(sc *DialScenario) *DialRun {
 	if timeout == 0 {
 		timeout = 5 * time.Second
 	}
-	opts := []mail.Option{mail.WithDialContextFunc(dial), mail.WithTimeout(timeout),
-		mail.WithTLSPolicy(mail.TLSPolicy(sc.Policy)), mail.WithTLSConfig(&tls.Config{ServerName: sc.Host, RootCAs: tlsRoots, MinVersion: tls.VersionTLS12}),
-		mail.WithSMTPAuth(mail.SMTPAuthType(sc.AuthType)), mail.WithUsername(sc.User), mail.WithPassword(sc.Pass)}
+	vr := NewRng(sc.Variant, "client-variant")
+	pick := func() bool { return sc.Variant != 0 && vr.Intn(2) == 1 }
+	var later []func(c *mail.Client)
+	opts := []mail.Option{mail.WithDialContextFunc(dial), mail.WithTimeout(timeout)}
+	tlsCfg := &tls.Config{ServerName: sc.Host, RootCAs: tlsRoots, MinVersion: tls.VersionTLS12}
+	if pick() {
+		later = append(later, func(c *mail.Client) { c.SetTLSPolicy(mail.TLSPolicy(sc.Policy)) })
+	} else {
+		opts = append(opts, mail.WithTLSPolicy(mail.TLSPolicy(sc.Policy)))
+	}
+	if pick() {
+		later = append(later, func(c *mail.Client) { _ = c.SetTLSConfig(tlsCfg) })
+	} else {
+		opts = append(opts, mail.WithTLSConfig(tlsCfg))
+	}
+	if pick() {
+		later = append(later, func(c *mail.Client) { c.SetSMTPAuth(mail.SMTPAuthType(sc.AuthType)) })
+	} else {
+		opts = append(opts, mail.WithSMTPAuth(mail.SMTPAuthType(sc.AuthType)))
+	}
+	if pick() {
+		later = append(later, func(c *mail.Client) { c.SetUsername(sc.User) })
+	} else {
+		opts = append(opts, mail.WithUsername(sc.User))
+	}
+	if pick() {
+		later = append(later, func(c *mail.Client) { c.SetPassword(sc.Pass) })
+	} else {
+		opts = append(opts, mail.WithPassword(sc.Pass))
+	}
 	if sc.Helo != "" {
 		opts = append(opts, mail.WithHELO(sc.Helo))
 	}
 	logger := &capLogger{}
 	if sc.Debug {
-		opts = append(opts, mail.WithDebugLog(), mail.WithLogger(logger))
+		if pick() {
+			later = append(later, func(c *mail.Client) { c.SetLogger(logger); c.SetDebugLog(true) })
+		} else {
+			opts = append(opts, mail.WithDebugLog(), mail.WithLogger(logger))
+		}
 	}
 	if sc.LogAuth {
-		opts = append(opts, mail.WithLogAuthData())
+		if pick() {
+			later = append(later, func(c *mail.Client) { c.SetLogAuthData(true) })
+		} else {
+			opts = append(opts, mail.WithLogAuthData())
+		}
 	}
 	client, err := mail.NewClient(sc.Host, opts...)
 	if err != nil {
 		run.Err = fmt.Errorf("config: %w", err)
 		return run
+	}
+	for _, f := range later {
+		f(client)
 	}
 	run.Client = client
 	if !watchdog(60*time.Second, func() {
